@@ -448,7 +448,7 @@ def shared_rules(run, db):
 def check(run, db, tier):
     run.trust('ORDER engine for the emission sweeps; SHAPE domain (right-aligned broadcasting over pairwise-distinct symbolic dimensions); reference families of sa/rules/polyfam.py')
     run.assume('requested orders are ascending non-negative integers (the documented contract); bitwise float equality of the two evaluation orders is not decided',
-               'Qbfs/Qcon/Q2d/zernike sequence functions: table-keyed lookups are checked in C08.index where implemented; their shapes are not decided here')
+               'hopkins / zernike_nm_der_seq (a plain loop over zernike_nm_der) are not covered by a sequence rule')
     run.rule('C08.emit', 'each store guarded by ns[k] == e holds the order-e polynomial (derivative), in slot k; the running index advances once per store; the sweep ends at ns[-1]')
     run.rule('C08.shape', 'every sequence function returns shape (K, *S) for coordinate ranks 0..3; per-order constants broadcast along axis 0 only')
     run.rule('C08.sibling', 'sequence and scalar functions apply the same per-order constant and parameters')
@@ -456,9 +456,15 @@ def check(run, db, tier):
     run.rule('C08.table', 'xy_seq monomial tables hold x**k for every k including 0; lookup in request order')
     run.rule('C08.shared', 'per-|m| / per-exponent tables shared across the requested terms are never written in place through an alias (may-alias, joined over branches)')
     run.rule('C08.shape2', 'two-index sequence functions (zernike_nm_seq, Q2d_seq, xy_seq): every mode has the shape the single-term function returns, for coordinate ranks 0..3, on every branch')
-    for fn in (emit_rules, shape_rules, seq2_shape_rules, sibling_rules, neg_rules, table_rules, shared_rules):
+    run.rule('C08.table2', 'zernike_nm_seq: table laws (orders 0..max per |m|, Jacobi/radial/azimuthal tables) make the stored mode equal zernike_nm(n, m) for m = 0, m > 0, m < 0, norm on/off; slot i holds request i')
+    run.rule('C08.qseq', 'Qbfs_seq / Qcon_seq / Q2d_seq: pre-sweep stores, sweep start, one pass and emission equal the single-order function; per-m tables hold Q2d radial parts index == order; request loop equals Q2d(n, m)')
+    from . import seqtables
+    for fn in (emit_rules, shape_rules, seq2_shape_rules, sibling_rules, neg_rules, table_rules, shared_rules,
+               seqtables.zernike_rules, seqtables.qbfs_seq_rules, seqtables.qcon_seq_rules, seqtables.q2d_seq_rules):
         run.group(fn, run, db)
     run.require_instances('C08.emit', 60)
     run.require_instances('C08.shape', 80)
     run.require_instances('C08.sibling', 10)
     run.require_instances('C08.shared', 6)
+    run.require_instances('C08.table2', 16)
+    run.require_instances('C08.qseq', 40)
